@@ -61,7 +61,12 @@ def gen_c19(seed_i):
                                    "KeyboardInterrupt", "SystemExit", "GeneratorExit"]))
     sched = {"policy": rng.choice(["walk", "walk", "pct"]), "seed": rng.randrange(1 << 30), "p": rng.choice([0.1, 0.3, 0.6]),
              "lines": True, "p_line": rng.choice([0.05, 0.2, 0.5]), "d": rng.choice([1, 2, 3]), "horizon": rng.choice([50, 200])}
-    return {"kind": "c19", "mode": mode, "threads": threads, "raising": raising, "sched": sched}
+    cfg = {"kind": "c19", "mode": mode, "threads": threads, "raising": raising, "sched": sched}
+    if mode == "lock" and rng.random() < 0.3:
+        # one more thread tries to reset() the lock now and then (the class's only other public operation): a reset must be
+        # refused while anybody is queued, so it can never let a waiter of a broken lock in
+        cfg["janitor"] = [rng.choice([0, 0.01, 0.05, 0.1, 0.2]) for _ in range(rng.randrange(1, 4))]
+    return cfg
 
 
 class _Boom(Exception):
@@ -98,10 +103,11 @@ def run_c19(cfg):
         state["seq"] += 1
         kw["s"] = state["seq"]
         kw["k"] = kind
-        if kind in ("acq-call", "inc-call"):
+        if kind in ("acq-call", "inc-call", "boom"):
             kw["parked"] = [[tj, oj] for tj, oj in sorted(pending.items()) if tj != kw["t"]
                             and ths[tj]._t.state == _sim.BLOCKED and ths[tj]._t.wait_desc == "Event.wait"]
-            pending[kw["t"]] = kw["o"]
+            if kind != "boom":
+                pending[kw["t"]] = kw["o"]
         elif kind in ("enter", "lock-err", "inc-ret", "inc-err"):
             pending.pop(kw["t"], None)
         log.append(kw)
@@ -151,12 +157,29 @@ def run_c19(cfg):
                 rec("released", t=ti, o=oi)
             rec("done", t=ti)
 
+        def janitor(delays):
+            for d in delays:
+                if d:
+                    s.sleep(d, True, "pre")
+                else:
+                    s.yield_point(s.cur(), "cs")
+                rec("reset-call")
+                try:
+                    lock.reset()
+                except exc.OrderedLockError:
+                    rec("reset-refused")
+                else:
+                    rec("reset-ok")
+
         for ti, ops in enumerate(cfg["threads"]):
             t = simthreading.Thread(target=worker, args=(ti, ops), name=f"w{ti}")
             ths.append(t)
-        for t in list(ths):
+        extra = []
+        if cfg.get("janitor") and lock is not None:
+            extra.append(simthreading.Thread(target=janitor, args=(cfg["janitor"],), name="janitor"))
+        for t in list(ths) + extra:
             t.start()
-        for t in ths:
+        for t in ths + extra:
             t.join()
         rec("all-joined")
 
@@ -188,10 +211,17 @@ def oracle_c19(cfg, r):
         b = boom[0]
         if not any(e["k"] == "own-exc" and e["t"] == b["t"] for e in log):
             out.append(V("C19", "holder-lost-own-exception", "raising holder did not see its own exception"))
+        resets = [e["s"] for e in log if e["k"] == "reset-ok" and e["s"] > b["s"]]
+        parked_at_break = {tuple(x) for x in b.get("parked", [])}
         for e in log:
             if e["k"] == "enter" and e["s"] > b["s"]:
-                out.append(V("C19", "acquired-after-break", f"thread {e['t']} entered the critical section after the lock broke"))
-                break
+                if (e["t"], e["o"]) in parked_at_break:
+                    out.append(V("C19", "acquired-after-break", f"thread {e['t']} was parked in acquire when the lock broke and "
+                                 "entered the critical section afterwards"))
+                    break
+                if not any(r_ < e["s"] for r_ in resets):  # a reset() that was ACCEPTED after the break starts a fresh lock
+                    out.append(V("C19", "acquired-after-break", f"thread {e['t']} entered the critical section after the lock broke"))
+                    break
         for e in log:
             if e["k"] == "lock-err" and e["s"] < b["s"]:
                 out.append(V("C19", "error-before-break", f"thread {e['t']} got OrderedLockError before any holder raised"))
